@@ -359,6 +359,9 @@ func (s SubjectAltName) Builder() (cert.ExtensionBuilder, error) {
 				if err != nil {
 					return nil, fmt.Errorf("config-v1: [subjectAlternativeName] can't decode octet#%d. not a valid integer: %v", j, octet)
 				}
+				if v < 0 || v > 255 {
+					return nil, fmt.Errorf("config-v1: [subjectAlternativeName] octet#%d is out of range: %v", j, octet)
+				}
 				ipAddr[j] = byte(v)
 			}
 
